@@ -271,6 +271,54 @@ pub fn judge(c: &Case) -> Verdict {
     }
 }
 
+const EMBEDDINGS: [(&str, &str); 7] = [("", " , -name z"), ("( ", " , -true ) -o -print"), ("! ", ""), ("-name z -o ", ""), ("( ( ", " ) )"), ("-true , ", " , -print"), ("", " -a -true")];
+
+/// The same primary inside a larger expression (left of a ',', under '!', in parentheses, ...):
+/// in range -> the one comparison of the program carries the exact constant; beyond the range ->
+/// no program. (The expected tree of the embedding itself is C01/C05 business.)
+pub fn judge_embedded(c: &Case, k: usize) -> Verdict {
+    if !c.digits.bytes().all(|b| b.is_ascii_digit()) || c.digits.is_empty() || (c.sign != ' ' && !c.carrier.signed()) {
+        return Verdict::Skip("not a digit string");
+    }
+    if matches!(c.carrier, Carrier::Threads | Carrier::MaxDepth | Carrier::MinDepth) {
+        return Verdict::Skip("options are embedded by C13");
+    }
+    let (pre, post) = EMBEDDINGS[k % EMBEDDINGS.len()];
+    let sign = if c.sign == ' ' { String::new() } else { c.sign.to_string() };
+    let text = format!("{pre}{} {}{}{}{post}", c.carrier.keyword(), sign, c.digits, c.carrier.suffix());
+    let v = value_of(&c.digits);
+    let in_range = match v {
+        Some(v) => v <= c.carrier.field_max() && v.checked_mul(c.carrier.unit()).map(|p| p <= u64::MAX as u128).unwrap_or(false),
+        None => false,
+    };
+    let outcome = match catch(|| parse(&text).map_err(|e| e.to_string()).and_then(|(o, t)| compile(&t, &o).map(|c| c.scheme("/")).map_err(|e| e.to_string()))) {
+        Ok(r) => r,
+        Err(p) => return Verdict::Fail(format!("{text:?}: panic (a panic is not a rejection): {p}")),
+    };
+    match (in_range, outcome) {
+        (false, Err(_)) => Verdict::Pass { nt: true, class: "embedded, out of range: rejected" },
+        (false, Ok(prog)) => Verdict::Fail(format!("{text:?}: value beyond the range of its field was accepted inside a larger expression; program:\n{prog}")),
+        (true, Err(e)) => Verdict::Fail(format!("{text:?}: value within range, but rejected inside a larger expression: {e}")),
+        (true, Ok(prog)) => {
+            let forms = match sx::read_all(&prog) {
+                Ok(f) => f,
+                Err(e) => return Verdict::Fail(format!("{text:?}: program does not read: {e}")),
+            };
+            let (cmps, _) = comparisons(&forms);
+            let want = (v.unwrap() * c.carrier.unit()).to_string();
+            let op = match c.sign {
+                '+' => ">",
+                '-' => "<",
+                _ => "=",
+            };
+            if cmps.len() != 1 || cmps[0].1 != want || cmps[0].0 != op {
+                return Verdict::Fail(format!("{text:?}: comparisons in the policy are {cmps:?}, expected exactly ({op} .. {want})\n{prog}"));
+            }
+            Verdict::Pass { nt: true, class: "embedded, in range: exact in the program" }
+        }
+    }
+}
+
 fn case_json(c: &Case) -> Value {
     json!({"kind": "number", "carrier": c.carrier.json(), "sign": c.sign.to_string(), "digits": c.digits, "input": input_of(c)})
 }
@@ -281,6 +329,9 @@ pub fn replay(case: &Value) -> Result<Verdict, String> {
         sign: case["sign"].as_str().and_then(|s| s.chars().next()).unwrap_or(' '),
         digits: case["digits"].as_str().ok_or("digits")?.to_string(),
     };
+    if let Some(k) = case["embedding"].as_u64() {
+        return Ok(judge_embedded(&c, k as usize));
+    }
     Ok(judge(&c))
 }
 
@@ -291,6 +342,14 @@ fn boundary_values(unit: u128) -> Vec<u128> {
         bs.push((1u128 << 64) / u.bytes() as u128);
     }
     bs.push((1u128 << 64) / 512);
+    // every power of two (narrowing to 8/16/24/32/53 bits, shifts) and of ten (digit-count limits)
+    for k in 0..=70u32 {
+        bs.push(1u128 << k);
+        bs.push((1u128 << k) / unit);
+    }
+    for k in 0..=21u32 {
+        bs.push(10u128.pow(k));
+    }
     bs.sort();
     bs.dedup();
     for b in bs {
@@ -337,12 +396,23 @@ pub fn run(ctx: &Ctx) -> Report {
                 let case = Case { carrier: c, sign, digits: d.clone() };
                 let v = judge(&case);
                 st.record(&v, stable_hash(&case), true, || case_json(&case));
+                // a third of them also inside a larger expression
+                let h = stable_hash(&case);
+                if h % 3 == 0 {
+                    let k = (h / 3 % EMBEDDINGS.len() as u64) as usize;
+                    let v = judge_embedded(&case, k);
+                    st.record(&v, stable_hash(&(&case, k)), true, || {
+                        let mut j = case_json(&case);
+                        j["embedding"] = json!(k);
+                        j
+                    });
+                }
             }
         }
         st
     });
     total.merge(sys);
-    total.exhaustive_parts.push("every numeric carrier (46: ids, counts, -threads, -size x 8 unit spellings, 6 time tests x 5 unit spellings, -maxdepth/-mindepth) x values within +-2 of {0, 2^16, 2^31, 2^32, 2^63, 2^64, 2^64/unit for every unit} x {0,1,30} leading zeros x {none,+,-}, plus 20-40 digit strings".into());
+    total.exhaustive_parts.push("every numeric carrier (46: ids, counts, -threads, -size x 8 unit spellings, 6 time tests x 5 unit spellings, -maxdepth/-mindepth) x values within +-2 of {every power of two up to 2^70, every power of ten up to 10^21, 2^k/unit, 2^64/unit for every unit} x {0,1,30} leading zeros x {none,+,-}, plus 20-40 digit strings".into());
 
     let cases = ctx.tier.pick(300_000u32, 3_000_000u32);
     let shards = 16;
@@ -363,7 +433,7 @@ pub fn run(ctx: &Ctx) -> Report {
     total.merge(rnd);
     Report {
         stats: total,
-        rule: "every numeric carrier x decimal strings (boundary-directed and random, with leading zeros, signs, up to 40 digits). Oracle: big-integer arithmetic on the text: v <= range of the field (u32/u64) and v*unit <= u64::MAX -> parse Ok, the tree carries exactly v, and the integer literal of the emitted comparison (read by the independent reader, compared as digit strings) equals v*unit (sizes) resp. v, the thread count is the fifth argument of the scan call; otherwise the input must be rejected with an error value by parse or compile (a panic is not a rejection, any emitted program is a failure). Run in the dev and the release build. Non-trivial: v within +-2 of a boundary, or leading zeros, or >=20 digits. Distinct: by (carrier, sign, digit string).".into(),
+        rule: "every numeric carrier x decimal strings (boundary-directed and random, with leading zeros, signs, up to 40 digits). Oracle: big-integer arithmetic on the text: v <= range of the field (u32/u64) and v*unit <= u64::MAX -> parse Ok, the tree carries exactly v, and the integer literal of the emitted comparison (read by the independent reader, compared as digit strings) equals v*unit (sizes) resp. v, the thread count is the fifth argument of the scan call; otherwise the input must be rejected with an error value by parse or compile (a panic is not a rejection, any emitted program is a failure). A third of the systematic cases are repeated with the primary inside a larger expression (left of ',', under '!', in parentheses, after -o, ...): in range -> the one comparison of the program is exact, beyond the range -> no program. Run in the dev and the release build. Non-trivial: v within +-2 of a boundary, or leading zeros, or >=20 digits. Distinct: by (carrier, sign, digit string).".into(),
         assumptions: vec!["-maxdepth/-mindepth: only 'beyond u32 must be rejected' is asserted here; what happens in range is C13's".into()],
         exhaustive: false,
     }
